@@ -1623,6 +1623,163 @@ def u1q_eps_validate(ctx, TQ):
                         {"theta": repr(th), "phi": repr(ph), "qubit": q, "out": names})
 
 
+# ---- epsilon probes: the snapping window of every transpiler that documents an epsilon -----------------------------------------
+def epsilon_probes(ctx):
+    """For every transpiler / preset with an epsilon: rotation angles at special-angle ± d, d on a log grid 1e-12 … 1e-3, both
+    signs, every special angle k·π/4 for k = −9 … 17 (negative ones and multiples beyond 2π included), default and explicit
+    epsilon.  The judgement is tied to the DOCUMENTED epsilon: a rotation may be replaced by a named gate / dropped only when
+    its angle is within epsilon of the special value, so the operator distance between output and input (up to phase) is at
+    most C·epsilon (C = 2 for one snapped gate, 4 for pipelines that split one rotation into several) + 1e-12 of float noise –
+    never a fixed 1e-6."""
+    import numpy as np
+
+    import quri_parts.circuit.transpile as T
+    import quri_parts.ionq.circuit.transpile as TI
+    import quri_parts.quantinuum.circuit.transpile.quantinuum_native_transpiler as TQN
+    from oracle import dense
+    from quri_parts.circuit import QuantumCircuit, gates
+    from quri_parts.quantinuum.circuit import U1q
+
+    rng = ctx.rng
+    pi = math.pi
+    DEF = 1e-9  # the documented default of every epsilon in the circuit transpile package
+    ds = sorted({m * 10.0 ** e for e in range(-12, -3) for m in (1.0, 3.0)} | {1e-3})
+    ks = list(range(-9, 18))
+
+    def cfgs():
+        out = []  # (name, make, epsilon, C, axes)
+        for eps in (None, 1e-12, 1e-6, 1e-4):
+            e = DEF if eps is None else eps
+            a = () if eps is None else (eps,)
+            kw = {} if eps is None else {"epsilon": eps}
+            out += [
+                (f"RX2NamedTranspiler({eps})", (lambda a=a: T.RX2NamedTranspiler(*a)), e, 2, ["RX"]),
+                (f"RY2NamedTranspiler({eps})", (lambda kw=kw: T.RY2NamedTranspiler(**kw)), e, 2, ["RY"]),
+                (f"RZ2NamedTranspiler({eps})", (lambda a=a: T.RZ2NamedTranspiler(*a)), e, 2, ["RZ"]),
+                (f"RZ2NamedTranspiler({eps},allow_t_tdag=False)", (lambda kw=kw: T.RZ2NamedTranspiler(allow_t_tdag=False, **kw)), e, 2, ["RZ"]),
+                (f"Rotation2NamedTranspiler({eps})", (lambda a=a: T.Rotation2NamedTranspiler(*a)), e, 2, ["RX", "RY", "RZ"]),
+                (f"ZeroRotationEliminationTranspiler({eps})", (lambda kw=kw: T.ZeroRotationEliminationTranspiler(**kw)), e, 2, ["RX", "RY", "RZ"]),
+                (f"CliffordRZSetTranspiler({eps})", (lambda a=a: T.CliffordRZSetTranspiler(*a)), e, 4, ["RX", "RY", "RZ", "U1"]),
+            ]
+            for s in (["H", "S", "RZ", "CNOT"], ["X", "SqrtX", "RZ", "CNOT"], ["H", "S", "T", "CNOT"], ["RX", "RY", "RZ", "CNOT"],
+                      ["H", "X", "Y", "Z", "S", "Sdag", "SqrtX", "SqrtXdag", "SqrtY", "SqrtYdag", "T", "Tdag", "RX", "RY", "RZ", "CZ"], ["Z", "RX", "RZ", "CZ"]):
+                out.append((f"GateSetConversionTranspiler({s},{eps})", (lambda s=s, kw=kw: T.GateSetConversionTranspiler(s, **kw)), e, 4, ["RX", "RY", "RZ", "U1"]))
+        out += [("STARSetTranspiler()", T.STARSetTranspiler, DEF, 4, ["RX", "RY", "RZ", "U1"]), ("RotationSetTranspiler()", T.RotationSetTranspiler, DEF, 4, ["RX", "RY", "RZ", "U1"]),
+                ("RZSetTranspiler()", T.RZSetTranspiler, 0.0, 4, ["RX", "RY", "RZ"])]  # RZSet documents no tolerance at all: exact
+        return out
+
+    def probe(name, make, eps, C, axis, k, d, shape):
+        ang = k * pi / 4 + d
+        n = 1 if shape in ("single", "split") else 2
+        c = QuantumCircuit(n)
+        q = n - 1
+        g = getattr(gates, axis)
+        if shape == "split":  # two rotations the pipelines fuse into one of angle k·π/4 + d
+            x = rng.uniform(-3, 3)
+            c.add_gate(g(q, x))
+            c.add_gate(g(q, ang - x))
+        else:
+            if shape == "context":
+                c.add_gate(gates.H(0))
+                c.add_gate(gates.CNOT(0, 1))
+            c.add_gate(g(q, ang))
+            if shape == "context":
+                c.add_gate(gates.CNOT(1, 0))
+        u_in = dense.circuit_unitary(n, c.gates)
+        ctx.evaluations += 1
+        try:
+            out = make()(c)
+        except Exception as e:  # noqa: BLE001 – refusing is allowed
+            ctx.count("validate.eps-probe", "raised:" + type(e).__name__)
+            return
+        try:
+            dist = dense.phase_dist(dense.circuit_unitary(n, out.gates), u_in)
+        except KeyError:
+            ctx.count("validate.eps-probe", "oracle-unknown-gate")
+            return
+        tol = C * eps + 1e-12
+        changed = [x.name for x in out.gates] != [x.name for x in c.gates]
+        ctx.count("validate.eps-probe", ("snapped/rewritten:" if changed else "kept:") + ("ok" if dist <= tol else "BEYOND-EPSILON"))
+        if not dist <= tol:
+            ctx.witness("transpile:" + name.split("(")[0], f"{name}: {axis}({k}·π/4 {d:+.1e}) [{shape}] → {[x.name for x in out.gates][:8]}: output is {dist:.3g} away from the "
+                        f"input (up to phase); the documented tolerance is epsilon = {eps:g} (bound used: {tol:.3g})", describe_circ(c), {"dist": dist, "epsilon": eps, "offset": d})
+
+    specs = []
+    core = []
+    for name, make, eps, C, axes in cfgs():
+        for axis in axes:
+            for k in ks:
+                for d in ds:
+                    for sgn in (1, -1):
+                        sp = (name, make, eps, C, axis, k, sgn * d)
+                        specs.append(sp)
+                        # the decades in which a window that is too wide for the default epsilon must show, for every special angle
+                        if eps == DEF and d in (1e-8, 1e-7, 1e-6, 1e-5) and (name.startswith(("RX2Named", "RY2Named", "RZ2Named(", "ZeroRot", "STARSet", "CliffordRZSet")) or "['H', 'S', 'RZ', 'CNOT']" in name):
+                            core.append(sp)
+    if ctx.quick():
+        chosen = core + [specs[i] for i in sorted(rng.sample(range(len(specs)), 6000))]
+    else:
+        chosen = specs
+    shapes_single = ["single"]
+    for name, make, eps, C, axis, k, d in chosen:
+        pipeline = C == 4
+        shape = rng.choice(["single", "single", "split", "context"]) if pipeline else rng.choice(["single", "single", "single", "context"])
+        probe(name, make, eps, C, axis, k, d, shape)
+
+    # IonQNativeTranspiler(epsilon): RX / RY next to ±π/2, ±π; relation = outcome statistics (U·V† diagonal), same bound
+    for eps in (None, 1e-9, 1e-4):
+        e = 1e-6 if eps is None else eps  # its documented default is 1e-6
+        for axis in ("RX", "RY"):
+            for b in (pi / 2, -pi / 2, pi, -pi):
+                for d in ds:
+                    for sgn in (1, -1):
+                        if ctx.quick() and rng.random() < 0.5:
+                            continue
+                        c = QuantumCircuit(1)
+                        c.add_gate(gates.RZ(0, 0.37))
+                        c.add_gate(getattr(gates, axis)(0, b + sgn * d))
+                        u = dense.circuit_unitary(1, c.gates)
+                        ctx.evaluations += 1
+                        try:
+                            out = (TI.IonQNativeTranspiler() if eps is None else TI.IonQNativeTranspiler(eps))(c)
+                            dm = u @ ionq_unitary(1, out.gates).conj().T
+                        except Exception as ex:  # noqa: BLE001
+                            ctx.count("validate.eps-probe", "ionq:raised:" + type(ex).__name__)
+                            continue
+                        dist = float(np.max(np.abs(dm - np.diag(np.diag(dm)))))
+                        tol = 2 * e + 1e-12
+                        ctx.count("validate.eps-probe", "ionq:" + ("ok" if dist <= tol else "BEYOND-EPSILON"))
+                        if not dist <= tol:
+                            ctx.witness("transpile:IonQNativeTranspiler", f"IonQNativeTranspiler({eps}): {axis}({b:.6g} {sgn * d:+.1e}) → U·V† off-diagonal {dist:.3g}; documented tolerance epsilon = {e:g}",
+                                        describe_circ(c), {"dist": dist, "epsilon": e})
+
+    # U1qNormalizeWithRZTranspiler(epsilon): the special branches (θ next to 0, −π/2, π, π/2).  Outside epsilon the general branch
+    # is taken, which is the recorded finding.
+    for eps in (None, 1e-12, 1e-6, 1e-4):
+        e = DEF if eps is None else eps
+        for b in (0.0, -pi / 2, pi, pi / 2):
+            for d in ds:
+                for sgn in (1, -1):
+                    if ctx.quick() and rng.random() < 0.5:
+                        continue
+                    c = QuantumCircuit(1)
+                    c.add_gate(U1q(0, b + sgn * d, 0.81))
+                    ctx.evaluations += 1
+                    try:
+                        out = (TQN.U1qNormalizeWithRZTranspiler() if eps is None else TQN.U1qNormalizeWithRZTranspiler(eps))(c)
+                        dist = dense.phase_dist(dense.circuit_unitary(1, out.gates), dense.circuit_unitary(1, c.gates))
+                    except Exception as ex:  # noqa: BLE001
+                        ctx.count("validate.eps-probe", "u1q:raised:" + type(ex).__name__)
+                        continue
+                    tol = 2 * e + 1e-12
+                    names = [g.name for g in out.gates]
+                    ctx.count("validate.eps-probe", "u1q:" + ("ok" if dist <= tol else "general-branch" if names == ["U1q", "RZ", "U1q"] else "BEYOND-EPSILON"))
+                    if not dist <= tol:
+                        key = "U1qNormalizeWithRZTranspiler.general-branch" if names == ["U1q", "RZ", "U1q"] else "U1qNormalize:other"
+                        ctx.witness(key, f"U1qNormalizeWithRZTranspiler({eps}): U1q({b:.6g} {sgn * d:+.1e}, 0.81) → {names}: {dist:.3g} away; documented tolerance epsilon = {e:g}",
+                                    {"theta": repr(b + sgn * d), "phi": "0.81", "out": names})
+
+
 # ---- Pauli ids outside {1,2,3} -------------------------------------------------------------------------------------------------
 def pauli_id_validate(ctx, T):
     """`Pauli id must be either 1, 2, or 3`: a Pauli / PauliRotation gate with another id is rejected by every
@@ -1855,6 +2012,7 @@ def validate_extra(ctx):
         ("ionq", lambda: ionq_extra_validate(ctx, mod("quri_parts.ionq.circuit.transpile"))),
         ("quantinuum", lambda: quantinuum_general_validate(ctx, mod("quri_parts.quantinuum.circuit.transpile"))),
         ("large-pauli", lambda: large_pauli_validate(ctx, mod("quri_parts.circuit.transpile"))),
+        ("eps-probe", lambda: epsilon_probes(ctx)),
         ("u1q-eps", lambda: u1q_eps_validate(ctx, mod("quri_parts.quantinuum.circuit.transpile.quantinuum_native_transpiler"))),
         ("pauli-id", lambda: pauli_id_validate(ctx, mod("quri_parts.circuit.transpile"))),
         ("clifford-approx", lambda: clifford_approx_extra(ctx, mod("quri_parts.circuit.transpile"))),
